@@ -305,11 +305,14 @@ func TestVerifSCTrace(t *testing.T) {
 		rec.out.Emit(map[string]interface{}{"ev": "begin", "i": n})
 		rec.out.Flush()
 		var c *Classifier
+		// the caller's slice of normalisers stays the caller's: it is overwritten once the values are registered
+		fs := make([]NormalizeFunc, 1, 4)
 		if flatten {
-			c = New(thr, FlattenWhitespace)
+			fs[0] = FlattenWhitespace
 		} else {
-			c = New(thr)
+			fs = fs[:0]
 		}
+		c = New(thr, fs...)
 		cid := fmt.Sprintf("t%d", n)
 		rec.out.Emit(map[string]interface{}{"ev": "reset", "keepmemo": false})
 		rec.out.Emit(map[string]interface{}{"ev": "new", "c": cid})
@@ -317,6 +320,9 @@ func TestVerifSCTrace(t *testing.T) {
 			rec.add(c, cid, fmt.Sprintf("k%d", k+1), v)
 		}
 		rec.add(c, cid, "k1", vals[0]) // duplicate key: an error, not a panic
+		for i := range fs[:cap(fs)] {
+			fs[:cap(fs)][i] = func(s string) string { return "~" + strings.ToUpper(s) + "~" }
+		}
 		var sb strings.Builder
 		var plants []map[string]interface{}
 		pi := 0
